@@ -18,6 +18,7 @@ def showErr : Err → String
   | .expectationParse l => s!"error:exp-parse:{l}"
   | .noShellExpression l => s!"error:no-shell:{l}"
   | .exitCodeWithoutCommand l => s!"error:exit-no-shell:{l}"
+  | .bodyWithoutCommand l => s!"error:body-no-shell:{l}"
 
 def showOB : Option Bool → String
   | none => "-" | some true => "1" | some false => "0"
